@@ -7,11 +7,23 @@ def can_inline(ty):
     return "(" not in ty and "Range" not in ty
 
 
+def optional_fields_noop(ty):
+    """`#[ts(optional_fields)]` leaves every field that is not an `Option` alone - whatever the library type
+    says about its `OptionInnerType`."""
+    if ty.replace(" ", "").startswith(("Option<", "std::option::Option<")):
+        return [], []
+    wo = TypeDef("WO", "struct", "named", [Field(ty, "f")], attrs=['#[ts(optional_fields, rename = "W")]'], derives="#[derive(TS)]", vals=False)
+    return [wo], ['ctx.check_same_string("optional_fields-changes-a-field-that-is-no-option", &|| <W as TS>::decl(), &|| <WO as TS>::decl());']
+
+
 def wrappers(ty):
     if not can_inline(ty):
         w = TypeDef("W", "struct", "named", [Field(ty, "f")], derives="#[derive(TS)]", vals=False)
-        return [w], ['ctx.c03::<W>("W");']
-    return wrappers_both(ty)
+        t, b = optional_fields_noop(ty)
+        return [w] + t, ['ctx.c03::<W>("W");'] + b
+    t0, b0 = wrappers_both(ty)
+    t, b = optional_fields_noop(ty)
+    return t0 + t, b0 + b
 
 
 def wrappers_both(ty):
